@@ -14,15 +14,16 @@
 (***************************************************************************)
 EXTENDS Staging
 
-CONSTANTS Names, Conts, Limits, MaxReq, MaxChg, MaxStore, KindSet, ROs, ExtNames, MaxFiles, FaultSet
+CONSTANTS Names, Conts, Limits, MaxReq, MaxChg, MaxStore, KindSet, ROs, ExtNames, MaxFiles, FaultSet, Restarts
 
 VARIABLES m,      \* call-protocol state (Staging!NewProto)
           root,   \* the disk below the synchronization root
           rcache, \* lastReturnedScanCache, as the tree the returned scan saw
           store,  \* staging store: set of slots
           recv,   \* what the receiver returned by the last Stage still expects: Seq([path, d])
+          obst,   \* the staging root path is occupied by a leftover FILE
           bad     \* monitor: name of the first property operator the last call violated ("" = none)
-vars == <<m, root, rcache, store, recv, bad>>
+vars == <<m, root, rcache, store, recv, obst, bad>>
 
 \* fault menus for the configurations (a cfg file cannot hold records)
 FaultsNone == {NoFault}
@@ -32,7 +33,7 @@ FaultsAll == AllFaults
 Roots == {D(c) : c \in PartialFns(Names, {F(x, FALSE) : x \in Conts})}
 
 Init == /\ \E ro \in ROs, mx \in Limits, mf \in MaxFiles : m = NewProto(ro, mx, mf)
-        /\ root \in Roots /\ rcache = Nil /\ store = {} /\ recv = <<>> /\ bad = ""
+        /\ root \in Roots /\ rcache = Nil /\ store = {} /\ recv = <<>> /\ obst = FALSE /\ bad = ""
 
 \* ---- arguments ----------------------------------------------------------
 RECURSIVE SeqsOver(_, _)
@@ -51,7 +52,7 @@ FirstBad(checks) == IF \A i \in DOMAIN checks : checks[i][2] THEN ""
 JudgeScan(err) == FirstBad(<< <<"C41_ScanLimit", C41_ScanLimit(m, root, err)>> >>)
 HitOf(items, fault) == {[path |-> items[j].path, d |-> items[j].d] : j \in {i \in DOMAIN items : Fires(fault, UnitsOf(items[i].d))}}
 JudgeStage(req, err, ret, store1, fault) ==
-  FirstBad(<< <<"C10_WriteFaultsSurface", C10_WriteFaultsSurface(HitOf(req, fault), store, store1)>>, <<"C41_StageRefusal", C41_StageRefusal(m, req, err)>>,
+  FirstBad(<< <<"C10_WriteFaultsSurface", C10_WriteFaultsSurface(HitOf(req, fault), store, store1)>>, <<"C41_StageRefusal", C41_StageRefusal(m, req, obst, err)>>,
               <<"C41_ReadOnlyRefuses", C41_ReadOnlyRefuses(m, err, root, root, store, store1)>>,
               <<"C41_StageSubseq", err = "" => C41_StageSubseq(req, ret)>>,
               <<"C41_OmittedAvailable", err = "" => C41_OmittedAvailable(root, store, req, ret, store1)>>,
@@ -78,19 +79,21 @@ DoScan ==
   /\ m' = ScanUpd(m, root)
   /\ rcache' = IF ScanOver(m, root) THEN rcache ELSE root
   /\ bad' = JudgeScan(IF ScanOver(m, root) THEN "over" ELSE "")
-  /\ UNCHANGED <<root, store, recv>>
+  /\ UNCHANGED <<root, store, recv, obst>>
 
 DoStage(req, fault) ==
-  /\ m' = StageUpd(m, Len(req))
-  /\ IF StageRefused(m, Len(req)) THEN
+  /\ m' = StageUpd(m, Len(req), obst)
+  /\ IF StageRefused(m, Len(req), obst) THEN
         /\ bad' = JudgeStage(req, "refused", <<>>, store, NoFault)
         /\ UNCHANGED <<store, recv>>
-     ELSE \E o \in StageWalk(m, root, req, store, <<>>, fault) :
-        /\ store' = o.store
+     ELSE \* Store.Initialize over a leftover root rescans it: everything staged is visible
+          LET vis == IF WhatIf = "no_rescan" /\ m.fresh THEN {} ELSE store IN
+          \E o \in StageWalk(m, root, req, vis, <<>>, fault) :
+        /\ store' = o.store \cup (store \ vis)
         /\ recv' = SelectSeq(req, LAMBDA r : \E j \in DOMAIN o.ret : o.ret[j] = r.path)
-        /\ bad' = JudgeStage(req, "", o.ret, o.store, fault)
+        /\ bad' = JudgeStage(req, "", o.ret, o.store \cup (store \ vis), fault)
   /\ Cardinality(store') <= MaxStore
-  /\ UNCHANGED <<root, rcache>>
+  /\ UNCHANGED <<root, rcache, obst>>
 
 \* (a receiver that outlives the transition of its cycle finds the store finalized -
 \* Allocate fails, every file is burnt - so the model forgets it there)
@@ -100,7 +103,7 @@ DoRecv(kinds, fault) ==
   /\ bad' = JudgeRecv(kinds, store', fault)
   /\ Cardinality(store') <= MaxStore
   /\ recv' = <<>>
-  /\ UNCHANGED <<m, root, rcache>>
+  /\ UNCHANGED <<m, root, rcache, obst>>
 
 DoTrans(chg) ==
   /\ m' = TransUpd(m, chg)
@@ -115,6 +118,7 @@ DoTrans(chg) ==
         /\ store' = {}                  \* stager.Finalize
         /\ bad' = JudgeTrans(chg, "", acc.results, acc.nprob, acc.missing, acc.root, {})
   /\ recv' = IF TransRefused(m, chg) \/ OverTrans(m, chg) THEN recv ELSE <<>>
+  /\ obst' = IF TransRefused(m, chg) \/ OverTrans(m, chg) THEN obst ELSE FALSE    \* Finalize removes whatever is there
   /\ UNCHANGED rcache
 
 \* an external process writes (also: copies / restores) or removes a file
@@ -123,9 +127,20 @@ DoExt(n, v) ==
   /\ root' = SetAt(root, <<n>>, v)
   /\ m' = ExtUpd(m)
   /\ bad' = ""
-  /\ UNCHANGED <<rcache, store, recv>>
+  /\ UNCHANGED <<rcache, store, recv, obst>>
 
-Next == \/ DoScan
+\* the endpoint object is replaced (crash, restart, reconnection); optionally the
+\* leftover staging root has meanwhile been replaced by a file or emptied
+DoRestart(plant) ==
+  /\ m' = RestartUpd(m)
+  /\ recv' = <<>>
+  /\ store' = IF plant = "keep" THEN store ELSE {}
+  /\ obst' = IF plant = "file" THEN TRUE ELSE IF plant = "empty" THEN FALSE ELSE obst
+  /\ bad' = ""
+  /\ UNCHANGED <<root, rcache>>
+
+Next == \/ \E plant \in Restarts : DoRestart(plant)
+        \/ DoScan
         \/ \E req \in Reqs, fault \in FaultSet : DoStage(req, fault)
         \/ \E kinds \in [DOMAIN recv -> KindSet], fault \in FaultSet : DoRecv(kinds, fault)
         \/ \E chg \in Plans : DoTrans(chg)
